@@ -256,8 +256,7 @@ def rule_single_toml(ck: Check, repo: Repo) -> None:
             r.violation(q2, "unrecognised condition", show_valuation(d), repo.loc(fn2))
 
 
-def rule_nesting(ck: Check, repo: Repo) -> None:
-    r = ck.rule("R4", "nested REUSE.toml: top-down, stop at the first override, closest per attribute")
+def check_depth_sort(ck: Check, repo: Repo, r) -> None:
     q = f"{GL}.NestedReuseTOML._find_relevant_tomls"
     fn = repo.func(q)
     ck.analysed_fn(q, f"{GL}.NestedReuseTOML.reuse_info_of", f"{GL}.NestedReuseTOML._find_relevant_tomls_and_items")
@@ -286,6 +285,16 @@ def rule_nesting(ck: Check, repo: Repo) -> None:
                     f"sort keys {keys or 'none'}: the relevant REUSE.toml files must be ordered by the depth of their"
                     " directory (key = directory.parts); otherwise override/closest follow enumeration or name order",
                     repo.loc(fn))
+
+
+def rule_nesting_sort_only(ck: Check, repo: Repo, rid: str) -> None:
+    r = ck.rule(rid, "relevant REUSE.toml files are ordered by directory depth, not by enumeration order")
+    check_depth_sort(ck, repo, r)
+
+
+def rule_nesting(ck: Check, repo: Repo) -> None:
+    r = ck.rule("R4", "nested REUSE.toml: top-down, stop at the first override, closest per attribute")
+    check_depth_sort(ck, repo, r)
     # items: every relevant toml, matched against the path relative to its directory, in that order
     q1 = f"{GL}.NestedReuseTOML._find_relevant_tomls_and_items"
     f1 = repo.func(q1)
